@@ -181,6 +181,9 @@ func propC14(c *Ctx, r *Report) {
 	r.Clauses = append(r.Clauses, "converted override values (E17): every store into the table of resolved override values ([]float64 sized by the module's overrides) takes its value from a call that receives the override's declared type, so overrides and initialisers that depend on an override see its value converted to its type")
 	c.runOverrideConverted(r, "override.converted")
 	r.floor("override.converted", 1)
+	r.Clauses = append(r.Clauses, sharedCellClause)
+	c.runPtrSharedCell(r, "ptr.sharedcell", inPkgs("ir", "msl", "glsl", "hlsl", "spirv"))
+	r.floor("ptr.closures", 2)
 	r.Clauses = append(r.Clauses, writebackClause)
 	c.runCopyWriteback(r, "copy.writeback", inPkgs("ir", "msl", "glsl", "hlsl", "spirv"))
 	r.floor("copy.writeback", 30)
@@ -210,6 +213,11 @@ func propC13(c *Ctx, r *Report) {
 	r.Clauses = append(r.Clauses, "per-arm state (E16): inside a loop over the arms of a branching statement a pass never assigns a loop-invariant map itself to its map-typed state field (only a copy, nil, make or a literal), so arms do not share one map")
 	c.runLoopStateAlias(r, "alias.loopstate", inPkgs("ir", "dxil/internal/passes"))
 	r.floor("alias.loopstate.copysites", 1)
+	r.Clauses = append(r.Clauses, sharedCellClause, argsRoleClause)
+	c.runPtrSharedCell(r, "ptr.sharedcell", inPkgs("ir", "dxil", "wgsl"))
+	r.floor("ptr.closures", 2)
+	c.runArgsNameRole(r, "args.namerole", inPkgs("ir", "dxil/internal/passes"))
+	r.floor("args.namerole", 5)
 	r.Clauses = append(r.Clauses, writebackClause)
 	c.runCopyWriteback(r, "copy.writeback", inPkgs("ir", "dxil/internal/passes", "wgsl"))
 	r.floor("copy.writeback", 30)
